@@ -64,6 +64,51 @@ pub fn raw_layout(path: &Path) -> Value {
     out
 }
 
+fn toc_json(path: &Path) -> Result<Value, String> {
+    let bytes = std::fs::read(path).map_err(|e| e.to_string())?;
+    let fs = find_last_valid_footer(&bytes).ok_or("no valid footer")?;
+    let toc = Toc::decode(fs.toc_bytes).map_err(|e| format!("toc: {e}"))?;
+    serde_json::to_value(&toc).map_err(|e| e.to_string())
+}
+
+fn diff_paths(a: &Value, b: &Value, path: &str, out: &mut std::collections::BTreeMap<String, (u64, String)>) {
+    match (a, b) {
+        (Value::Object(x), Value::Object(y)) => {
+            let keys: std::collections::BTreeSet<&String> = x.keys().chain(y.keys()).collect();
+            for k in keys {
+                diff_paths(x.get(k).unwrap_or(&Value::Null), y.get(k).unwrap_or(&Value::Null), &format!("{path}.{k}"), out);
+            }
+        }
+        (Value::Array(x), Value::Array(y)) if x.len() == y.len() && x.iter().any(|v| v.is_object() || v.is_array()) => {
+            for (u, v) in x.iter().zip(y) {
+                diff_paths(u, v, &format!("{path}[]"), out);
+            }
+        }
+        _ => {
+            if a != b {
+                let e = out.entry(path.trim_start_matches('.').to_string()).or_insert((0, String::new()));
+                e.0 += 1;
+                if e.1.is_empty() {
+                    let cut = |v: &Value| { let t = v.to_string(); t.chars().take(70).collect::<String>() };
+                    e.1 = format!("{} vs {}", cut(a), cut(b));
+                }
+            }
+        }
+    }
+}
+
+/// Field-level comparison of the TOCs of two files: generalised paths (indices dropped) that differ.
+pub fn toc_diff(a: &Path, b: &Path) -> Value {
+    match (toc_json(a), toc_json(b)) {
+        (Ok(x), Ok(y)) => {
+            let mut out = std::collections::BTreeMap::new();
+            diff_paths(&x, &y, "", &mut out);
+            json!({"differing_fields": out.iter().map(|(k, (n, ex))| json!({"path": k, "count": n, "example": ex})).collect::<Vec<_>>()})
+        }
+        (x, y) => json!({"error": format!("{:?} / {:?}", x.err(), y.err())}),
+    }
+}
+
 fn frame_obs(mem: &mut Memvid, f: &Frame, content: bool) -> Value {
     let mut v = json!({"id": f.id, "uri": f.uri, "status": format!("{:?}", f.status), "role": format!("{:?}", f.role), "parent": f.parent_id,
         "ts": f.timestamp, "supersedes": f.supersedes, "superseded_by": f.superseded_by, "title": f.title, "track": f.track, "tags": f.tags, "labels": f.labels});
@@ -163,6 +208,9 @@ pub fn main() {
             for p in &args.pos[1..] {
                 println!("{}", serde_json::to_string(&raw_layout(Path::new(p))).unwrap());
             }
+        }
+        "tocdiff" => {
+            println!("{}", serde_json::to_string(&toc_diff(Path::new(&args.pos[1]), Path::new(&args.pos[2]))).unwrap());
         }
         "obs" => {
             if args.flag("marks") {
